@@ -1,14 +1,17 @@
+\* A task dies at run time (its fork edge is aborted, nobody stops it): the
+\* other tasks must be unaffected (ExactlyOnce for the survivors, NonInterference
+\* also over the Die step).
 SPECIFICATION Spec
 CONSTANTS
     TaskIds = {t1, t2}
-    Shapes <- MCShapesQuick
+    Shapes <- MCShapesDead
     Batches <- MCBatchesQuick
     DefaultRP = "rp1"
     MaxWrites = 2
-    MaxLifecycle = 3
+    MaxLifecycle = 2
     Dedup = TRUE
     FailCleansUp = TRUE
-    MaxDeaths = 0
+    MaxDeaths = 1
     StopAtFirstError = FALSE
 SYMMETRY MCSymmetry
 INVARIANTS
